@@ -16,7 +16,7 @@ import os
 import vcommon as V
 import tables_util as T
 
-MODEL_KINDS = {"coerce-model", "coerce-interp-model", "inferred-model", "inferred-interp", "op-interp-model", "var-model", "func-model", "stmt-model", "op-model", "var-wide-model", "func-wide-model", "stmt-wide-model"}
+MODEL_KINDS = {"opl-model", "opl-interp-model", "coerce-model", "coerce-interp-model", "inferred-model", "inferred-interp", "op-interp-model", "var-model", "func-model", "stmt-model", "op-model", "var-wide-model", "func-wide-model", "stmt-wide-model"}
 
 
 def run(ctx):
@@ -57,6 +57,13 @@ def run(ctx):
                           {"cell": spec, "observed": T.show(spec) if rep and not rep.startswith(("died", "hang")) else rep,
                            "replay_cmd": "printf '0\\tshow %s\\n' | build/implrun c05" % spec})
 
+    # ---- cells must not influence each other: fresh process per cell vs the end of a long-lived process
+    n_fresh, fresh_diffs = T.fresh_process_check(ctx.rng)
+    for spec, a, b in fresh_diffs[:10]:
+        ctx.violation("C05 the verdict of cell %s depends on what the process ran before: fresh process '%s', after 630 statement cells '%s'" % (spec, a, b),
+                      {"cell": spec, "fresh": a, "long_lived": b,
+                       "replay_cmd": "printf '0\\tshow %s\\n' | build/implrun c05" % spec})
+
     # ---- harness integrity: every cell must have produced a verdict
     for req, rep in obs.bad[:20]:
         ctx.violation("the real linter/simulator did not answer on a cell (%s): %s" % (req, (rep or "no reply")[:160]),
@@ -92,9 +99,10 @@ def run(ctx):
     classes = {"vars": collections.Counter(), "funcs": collections.Counter(), "stmts": collections.Counter(), "ops": collections.Counter()}
     accepted = 0
     classes["coerce"] = collections.Counter()
+    classes["opsleft"] = collections.Counter()
     classes["inferred"] = collections.Counter()
     for name, table in (("vars", obs.vars), ("funcs", obs.funcs), ("stmts", obs.stmts), ("ops", obs.ops),
-                        ("coerce", obs.coerce), ("inferred", obs.inferred + obs.inferred3)):
+                        ("opsleft", obs.opsleft), ("coerce", obs.coerce), ("inferred", obs.inferred + obs.inferred3)):
         for r in table:
             for l, i in zip(r["lint"], r["interp"]):
                 if i is None:
@@ -107,7 +115,8 @@ def run(ctx):
         "variable type cells (name x 9 scopes)": 9 * sum(1 for r in obs.vars if r["op"] == "get"),
         "function cells (signature x 45 masks)": sum(1 for r in obs.funcs for x in r["interp"] if x is not None),
         "statement cells (kind x 45 masks)": sum(1 for r in obs.stmts for x in r["interp"] if x is not None),
-        "operator cells (23 ops x 10 types x existing value type / 8 forms)": sum(1 for r in obs.ops for x in r["interp"] if x is not None),
+        "operator cells (23 ops x 10 types x existing value type / 14 forms)": sum(1 for r in obs.ops for x in r["interp"] if x is not None),
+        "operator cells with a provenance of the left operand (23 ops x types x 6 provenances x lit/local value)": sum(1 for r in obs.opsleft for x in r["interp"] if x is not None),
         "coercion cells (3 contexts x 9 expected types x existing value type/form)": sum(1 for r in obs.coerce for x in r["interp"] if x is not None),
         "inferred-scope cells (use x depth 1..3 x 36 pairs of lifecycle subs)": sum(1 for r in obs.inferred for x in r["interp"] if x is not None),
         "inferred-scope cells (use x 84 triples, thorough)": sum(1 for r in obs.inferred3 for x in r["interp"] if x is not None),
@@ -127,6 +136,8 @@ def run(ctx):
         "verdict_histogram": {k: dict(v) for k, v in classes.items()},
         "disagreeing_rows": dict(kinds),
         "corpus_cells": len(corpus),
+        "fresh_process_cells_compared": n_fresh,
+        "fresh_process_differences": len(fresh_diffs),
         "known_lines": len(ctx.known),
         "known_lines_hit": sum(1 for k in ctx.known if k["hit"]),
     })
